@@ -2,6 +2,7 @@ package checks
 
 import (
 	"fmt"
+	"sort"
 	"strings"
 	"sync"
 	"sync/atomic"
@@ -447,6 +448,9 @@ func runC12(c *fw.Ctx) {
 		}(i, sc)
 	}
 	wg.Wait()
+	for i := 0; i < c.Pick(12, 80); i++ {
+		c12BounceBack(c, i)
+	}
 	for i, sc := range emptyIDScenarios {
 		c12Run(c, 100000+i, sc)
 	}
@@ -467,4 +471,122 @@ func runC12(c *fw.Ctx) {
 	c.Floor("resolutions_checked", 50)
 	c.Floor("setup_point_reached", 5)
 	c.Floor("shutdown_point_reached", 3)
+}
+
+// c12BounceBack: a client connects on node A, again on node B, then on node A a third time. Gossip is
+// uneven: when the third CONNECT arrives, A has learned of the second session (the property's proviso)
+// but the removal of the first one, issued by B, is still on its way. The third session is
+// established, and once the slow message has arrived too every node resolves the identifier to it
+// and the two displaced sessions end at their next keep-alive exchange.
+func c12BounceBack(c *fw.Ctx, idx int) {
+	fw.LogCase("C12 bounce-back %d", idx)
+	cl := kit.NewCluster(kit.WorkDir("c12b"))
+	defer cl.Close()
+	auth := kit.PredictableAuth()
+	nodes := []*kit.Node{}
+	for i := 1; i <= 2; i++ {
+		n, err := cl.AddNode(kit.NodeOpts{ID: uint64(i), Auth: auth})
+		if err != nil {
+			c.Inconclusive("cannot start node: " + err.Error())
+			return
+		}
+		nodes = append(nodes, n)
+	}
+	a, b := nodes[0], nodes[1]
+	clientID := fmt.Sprintf("bounce-%d", idx)
+	ids := []string{clientID + "#1", clientID + "#2", clientID + "#3"}
+	desc := fmt.Sprintf("client %q connects on n1, on n2, on n1 again; the removal of its first session reaches n1 only after the third CONNECT", clientID)
+	wit := map[string]interface{}{"scenario": idx}
+	connect := func(n *kit.Node, k int) *kit.Client {
+		cc, code, err := n.Connect(kit.ConnectOpts{ClientID: clientID, KeepAlive: 600, Clean: true})
+		if err != nil || code != 0 {
+			c.Violation("newer-connection-refused", fmt.Sprintf("%s: connection %d was not established (code %d, %v)", desc, k, code, err), wit)
+			return nil
+		}
+		if err := cc.Sub1(fmt.Sprintf("c12/s%d", k), 0); err != nil {
+			c.Violation("newer-session-not-served", fmt.Sprintf("%s: connection %d could not subscribe: %v", desc, k, err), wit)
+			cc.Close()
+			return nil
+		}
+		return cc
+	}
+	c1 := connect(a, 1)
+	if c1 == nil {
+		return
+	}
+	defer c1.Close()
+	cl.Quiesce()
+	// what n2 says about the first session from now on (its removal) is slow on its way to n1
+	cl.HoldGossipIf(1, func(payload []byte) bool {
+		ev, err := kit.DecodeEvent(payload)
+		if err != nil {
+			return false
+		}
+		for _, s := range ev.SessionMetadatas {
+			if s.SessionID == ids[0] && s.LastDeleted > s.LastAdded {
+				return true
+			}
+		}
+		return false
+	})
+	c2 := connect(b, 2)
+	if c2 == nil {
+		return
+	}
+	defer c2.Close()
+	cl.Quiesce()
+	if _, err := a.State.SessionMetadatas().Get(ids[1]); err != nil {
+		c.Inconclusive(desc + ": n1 has not learned of the second session")
+		return
+	}
+	c3 := connect(a, 3)
+	if c3 == nil {
+		return
+	}
+	defer c3.Close()
+	cl.Quiesce()
+	c.Observe("bounce_back_held_messages", cl.ReleaseGossip(1))
+	cl.Quiesce()
+	// the displaced sessions' next keep-alive exchanges
+	for k, old := range []*kit.Client{c1, c2} {
+		if old.Closed() {
+			continue
+		}
+		from := old.NumEvents()
+		old.Send(kit.EncPingReq())
+		closed := old.WaitClosed(10 * time.Second)
+		for _, e := range old.Events()[from:] {
+			if e.Pkt.Type == kit.PINGRESP {
+				c.Violation("displaced-session-still-served", fmt.Sprintf("%s: after all gossip was delivered, session %d still answers PINGREQ", desc, k+1), wit)
+				return
+			}
+		}
+		if !closed {
+			c.Violation("displaced-session-not-closed", fmt.Sprintf("%s: session %d was not disconnected after its keep-alive exchange", desc, k+1), wit)
+			return
+		}
+		time.Sleep(20 * time.Millisecond)
+		cl.Quiesce()
+	}
+	cl.Quiesce()
+	for _, n := range nodes {
+		live := []string{}
+		for _, s := range n.State.SessionMetadatas().All() {
+			if s.ClientID == clientID {
+				live = append(live, s.SessionID)
+			}
+		}
+		sort.Strings(live)
+		c.Observe("resolutions_checked", 1)
+		if len(live) != 1 || live[0] != ids[2] {
+			c.Violation("identifier-resolves-to-old-session", fmt.Sprintf("%s: at quiescence node %d lists the live sessions %v for the identifier, want only %s", desc, n.ID, live, ids[2]), map[string]interface{}{"scenario": idx, "node": n.ID, "live": live})
+			return
+		}
+	}
+	if ok, _ := c3.Ping(kit.DefaultWait); !ok {
+		c.Violation("newer-session-not-served", desc+": the newest session does not answer PINGREQ", wit)
+		return
+	}
+	c.Case(fmt.Sprintf("bounce-back|%d", idx), true)
+	c.Observe("bounce_back_scenarios", 1)
 }
